@@ -46,7 +46,16 @@ FailsAux(r) ==
     IF r.err # "" THEN <<"compressed_aux_accepted">> ELSE
     Clause("aux_shape_is_image_shape", r.shape = r.imshape)
 
+\* the compressed background / noise files that BANE itself writes expand to the image's
+\* shape and WCS
+FailsBane(r) ==
+    IF r.err # "" THEN <<"completed">> ELSE
+    Clause("shape_restored", r.shape = <<r.R, r.C>>)
+    \o Clause("wcs_restored", \A k \in 1..Len(r.wcsdev) : r.wcsdev[k] <= 1)
+    \o Clause("bn_keywords_removed", ~r.bnleft)
+
 Fails(r) == IF r.kind = "roundtrip" THEN FailsRT(r)
+            ELSE IF r.kind = "baneout" THEN FailsBane(r)
             ELSE IF r.kind = "identity" THEN FailsIdent(r)
             ELSE IF r.kind = "aux" THEN FailsAux(r)
             ELSE <<"unknown_record_kind">>
